@@ -344,8 +344,14 @@ def run(m: Model, r: Report, tier: str) -> None:
         for i, s in enumerate(t.body):
             if isinstance(s, ast.Assign) and isinstance(s.value, ast.Await) and "self.transport.request_unsafe(" in ast.unparse(s.value):
                 nxt = t.body[i + 1] if i + 1 < len(t.body) else None
-                if isinstance(nxt, ast.If) and "== b''" in ast.unparse(nxt.test) and any(isinstance(x, ast.Raise) and "BrokenPipeError" in ast.unparse(x) for x in nxt.body):
-                    guard_in_try = True
+                if isinstance(nxt, ast.If) and any(isinstance(x, ast.Raise) and "BrokenPipeError" in ast.unparse(x) for x in nxt.body) and isinstance(s.targets[0], ast.Name):
+                    # the guard, evaluated over the bytes just read: taken exactly for the empty read (`== b""`, `not raw`, `len(raw) == 0` ...)
+                    from sa import miniterp as _mt8
+                    try:
+                        if [bool(_mt8.eval_expr(nxt.test, {s.targets[0].id: v_})) for v_ in (b"", b"\x00", b"\x7f\x22\x31")] == [True, False, False]:
+                            guard_in_try = True
+                    except AnalysisError:
+                        pass
     r.check(guard_in_try, "R7", f"{req.qualname}#empty-read-is-connection-loss",
             "an empty read (end-of-stream of the line transports) must raise BrokenPipeError inside the try whose ConnectionError handler retries "
             "and reconnects; otherwise the raw error escapes and the request is not repeated on the new connection", loc=req.loc)
